@@ -334,21 +334,21 @@ theorem appendEscapedRune_pos (E : Env) (f : Form) (ml : Bool) (h r : Nat) :
   · simp [appendEscape]
   split
   · exact encodeRune_ne_nil r
-  · simp [appendEscape]; omega
+  · simp [appendEscape]
 
 theorem escapeLoop_cons_good (E : Env) (f : Form) (h b0 : Nat) (rest : Bytes)
     (hbr : (f.exact && (decodeFirst b0 rest).2 == 1 && (decodeFirst b0 rest).1 == 0xFFFD) = false) :
     escapeLoop E f false h (b0 :: rest) =
       appendEscapedRune E f false h (decodeFirst b0 rest).1 ++
         escapeLoop E f false h (rest.drop ((decodeFirst b0 rest).2 - 1)) := by
-  rw [escapeLoop]
+  conv => lhs; unfold escapeLoop
   simp only [hbr, Bool.false_and, Bool.false_eq_true, if_false]
 
 theorem escapeLoop_cons_bad (E : Env) (f : Form) (h b0 : Nat) (rest : Bytes)
     (hbr : (f.exact && (decodeFirst b0 rest).2 == 1 && (decodeFirst b0 rest).1 == 0xFFFD) = true) :
     escapeLoop E f false h (b0 :: rest) =
       appendEscape h ++ [0x78, hexDigit (b0 / 16 % 16), hexDigit (b0 % 16)] ++ escapeLoop E f false h rest := by
-  rw [escapeLoop]
+  conv => lhs; unfold escapeLoop
   simp only [hbr, if_true]
 
 /-! ### C09_roundtrip_single: the loop over a whole single-line body -/
@@ -434,5 +434,269 @@ theorem loop_single {E : Env} (hE : E.Ok) (f : Form) (hf : f.WF) (q : QuoteInfo)
         rw [this]
         rw [ih rest hlen hb.tail (Or.inl hx) k _ hk]
         simp
+
+/-! ### facts about the bytes of a single-line body (needed by `ParseQuotes` and the fast path) -/
+
+/-- induction principle along the units of the source string for single-line bodies -/
+theorem escapeLoop_ind {E : Env} (f : Form) (h : Nat) (P : Bytes → Bytes → Prop)
+    (h0 : P [] [])
+    (hgood : ∀ r orig s', GoodUnit r orig → P s' (escapeLoop E f false h s') →
+      P (orig ++ s') (appendEscapedRune E f false h r ++ escapeLoop E f false h s'))
+    (hbad : ∀ b0 s', f.exact = true → 0x80 ≤ b0 → b0 < 256 → P s' (escapeLoop E f false h s') →
+      P (b0 :: s') (appendEscape h ++ [0x78, hexDigit (b0 / 16 % 16), hexDigit (b0 % 16)] ++
+        escapeLoop E f false h s')) :
+    ∀ (n : Nat) (s : Bytes), s.length ≤ n → IsBytes s → (f.exact = true ∨ validUTF8 s = true) →
+      P s (escapeLoop E f false h s) := by
+  intro n
+  induction n with
+  | zero =>
+    intro s hn _ _
+    have : s = [] := List.length_eq_zero_iff.mp (by omega)
+    subst this
+    simpa [escapeLoop] using h0
+  | succ n ih =>
+    intro s hn hb hv
+    match s with
+    | [] => simpa [escapeLoop] using h0
+    | b0 :: rest =>
+      have hb0 : b0 < 256 := hb b0 (by simp)
+      have hlen : rest.length ≤ n := by simp at hn; omega
+      obtain ⟨hw1, hcase⟩ := decodeFirst_cases b0 rest
+      rcases hcase with ⟨hgood', hnot⟩ | ⟨h80, hw, hr⟩
+      · have hbr : (f.exact && (decodeFirst b0 rest).2 == 1 && (decodeFirst b0 rest).1 == 0xFFFD) = false := by
+          by_cases hx : (decodeFirst b0 rest).2 = 1
+          · have hlt : b0 < 0x80 := by omega
+            have : (decodeFirst b0 rest).1 = b0 := by simp [decodeFirst, hlt]
+            have hne : ((decodeFirst b0 rest).1 == 0xFFFD) = false := by
+              rw [this]; simp; omega
+            simp [hne]
+          · have : ((decodeFirst b0 rest).2 == 1) = false := by simpa using hx
+            simp [this]
+        rw [escapeLoop_cons_good E f _ b0 rest hbr]
+        have hv' : f.exact = true ∨ validUTF8 (rest.drop ((decodeFirst b0 rest).2 - 1)) = true := by
+          rcases hv with h | h
+          · exact Or.inl h
+          · right
+            unfold validUTF8 at h
+            have : (decide (0x80 ≤ b0) && (decodeFirst b0 rest).2 == 1) = false := by
+              simp only [Bool.and_eq_false_iff, decide_eq_false_iff_not, beq_eq_false_iff_ne]
+              by_cases h80 : 0x80 ≤ b0
+              · right; intro hh; exact hnot ⟨h80, hh⟩
+              · left; exact h80
+            simpa [this] using h
+        have hlen' : (rest.drop ((decodeFirst b0 rest).2 - 1)).length ≤ n := by
+          simp only [List.length_drop]; omega
+        have := hgood _ _ _ hgood' (ih _ hlen' (hb.tail.drop _) hv')
+        rwa [take_drop_unit b0 rest _ hw1] at this
+      · have hx : f.exact = true := by
+          rcases hv with h | h
+          · exact h
+          · unfold validUTF8 at h
+            have : (decide (0x80 ≤ b0) && (decodeFirst b0 rest).2 == 1) = true := by simp [h80, hw]
+            simp [this] at h
+        have hbr : (f.exact && (decodeFirst b0 rest).2 == 1 && (decodeFirst b0 rest).1 == 0xFFFD) = true := by
+          simp [hx, hw, hr]
+        rw [escapeLoop_cons_bad E f _ b0 rest hbr]
+        exact hbad b0 rest hx h80 hb0 (ih rest hlen hb.tail (Or.inl hx))
+
+theorem hexDigit_ge (d : Nat) : 48 ≤ hexDigit d := by
+  unfold hexDigit; split <;> omega
+
+theorem escapeBody_ge48 (x : Bool) (r : Nat) : ∀ b ∈ escapeBody x r, 48 ≤ b := by
+  have H := hexDigit_ge
+  intro b hb
+  unfold escapeBody at hb
+  repeat' split at hb
+  all_goals
+    simp only [List.mem_cons, List.mem_nil_iff, or_false] at hb
+    rcases hb with rfl | rfl | rfl | rfl | rfl | rfl | rfl | rfl | rfl <;> first | exact H _ | decide
+
+theorem isSimple_backslash (q : Nat) (t : Bytes) : isSimple q (0x5C :: t) = false := by
+  unfold isSimple
+  simp [decodeRune_ascii 0x5C t (by decide)]
+
+theorem isSimple_ascii_tail (q r : Nat) (t : Bytes) (h : r < 0x80) (hs : isSimple q (r :: t) = true) :
+    isSimple q t = true := by
+  unfold isSimple at hs
+  rw [decodeRune_ascii r t h] at hs
+  dsimp only at hs
+  split at hs
+  · cases hs
+  split at hs
+  · cases hs
+  · simpa using hs
+
+theorem isSimple_mb_tail (q r : Nat) (t : Bytes) (h1 : 0x80 ≤ r) (h2 : r ≤ 0x10FFFF)
+    (h3 : ¬ (0xD800 ≤ r ∧ r < 0xE000)) (hs : isSimple q (encodeRune r ++ t) = true) :
+    isSimple q t = true := by
+  have hd := decodeRune_encodeRune r t h1 h2 h3
+  have hl := encodeRune_length r h1
+  match he : encodeRune r with
+  | [] => rw [he] at hl; simp at hl
+  | c :: cs =>
+    rw [he] at hd hs
+    have hd' : decodeRune (c :: (cs ++ t)) = (r, (c :: cs).length) := by simpa using hd
+    simp only [List.cons_append] at hs
+    unfold isSimple at hs
+    rw [hd'] at hs
+    dsimp only at hs
+    split at hs
+    · cases hs
+    split at hs
+    · cases hs
+    · simpa using hs
+
+/-- what one good unit contributes to a single-line body without hashes -/
+theorem chunk_facts {E : Env} (hE : E.Ok) (f : Form) (hf : f.WF) (r : Nat) (orig : Bytes)
+    (hu : GoodUnit r orig) :
+    (∀ b ∈ appendEscapedRune E f false 0 r, b ≠ 10) ∧
+    (appendEscapedRune E f false 0 r).head? ≠ some f.quote ∧
+    (∀ t, isSimple f.quote (appendEscapedRune E f false 0 r ++ t) = true →
+      appendEscapedRune E f false 0 r = orig ∧ isSimple f.quote t = true) := by
+  have hq : f.quote = 0x22 ∨ f.quote = 0x27 := by rcases hf with h | h <;> simp [h.1]
+  unfold appendEscapedRune
+  split
+  · next h =>
+    have hr : r = f.quote ∨ r = 0x5C := by simpa using h
+    have hr10 : r ≠ 10 := by rcases hr with h | h <;> rcases hq with g | g <;> simp [h, g]
+    refine ⟨?_, ?_, ?_⟩
+    · intro b hb
+      simp [appendEscape, hashes] at hb
+      rcases hb with rfl | rfl
+      · decide
+      · exact hr10
+    · rcases hq with g | g <;> simp [appendEscape, hashes, g]
+    · intro t hs
+      simp only [appendEscape, hashes, List.replicate, List.cons_append, List.nil_append] at hs
+      rw [isSimple_backslash] at hs; cases hs
+  · next hnq =>
+    have hnq' : r ≠ f.quote ∧ r ≠ 0x5C := by simpa using hnq
+    split
+    · next hp =>
+      have hctl := Form.isPrint_not_ctl hE f r hp
+      rcases hu with ⟨h1, h2⟩ | ⟨h1, h2, h3, h4⟩
+      · subst h2
+        rw [encodeRune_ascii r h1]
+        refine ⟨?_, ?_, ?_⟩
+        · intro b hb; simp at hb; subst hb; exact hctl.2.1
+        · simp; exact hnq'.1
+        · intro t hs; exact ⟨rfl, isSimple_ascii_tail _ r t h1 hs⟩
+      · have hbh := encodeRune_bytes_high r h1
+        have hl := encodeRune_length r h1
+        refine ⟨?_, ?_, ?_⟩
+        · intro b hb; have := (hbh b hb).1; omega
+        · match he : encodeRune r with
+          | [] => rw [he] at hl; simp at hl
+          | c :: cs =>
+            have := (hbh c (by rw [he]; simp)).1
+            simp only [List.head?_cons, ne_eq, Option.some.injEq]
+            rcases hq with g | g <;> rw [g] <;> omega
+        · intro t hs; exact ⟨h4, isSimple_mb_tail _ r t h1 h2 h3 hs⟩
+    · refine ⟨?_, ?_, ?_⟩
+      · intro b hb
+        simp only [appendEscape, hashes, List.replicate, List.cons_append, List.nil_append,
+          List.mem_cons] at hb
+        rcases hb with rfl | hb
+        · decide
+        · have := escapeBody_ge48 f.exact r b hb; omega
+      · rcases hq with g | g <;> simp [appendEscape, hashes, g]
+      · intro t hs
+        simp only [appendEscape, hashes, List.replicate, List.cons_append, List.nil_append] at hs
+        rw [isSimple_backslash] at hs; cases hs
+
+/-- the three facts about a whole single-line body without hashes -/
+theorem body_facts {E : Env} (hE : E.Ok) (f : Form) (hf : f.WF) (s : Bytes) (hb : IsBytes s)
+    (hv : f.exact = true ∨ validUTF8 s = true) :
+    (∀ b ∈ escapeLoop E f false 0 s, b ≠ 10) ∧
+    (escapeLoop E f false 0 s).head? ≠ some f.quote ∧
+    (isSimple f.quote (escapeLoop E f false 0 s) = true → escapeLoop E f false 0 s = s) := by
+  have hq : f.quote = 0x22 ∨ f.quote = 0x27 := by rcases hf with h | h <;> simp [h.1]
+  refine escapeLoop_ind (E := E) f 0
+    (fun s body => (∀ b ∈ body, b ≠ 10) ∧ body.head? ≠ some f.quote ∧
+      (isSimple f.quote body = true → body = s)) ?_ ?_ ?_ s.length s (Nat.le_refl _) hb hv
+  · exact ⟨by simp, by simp, fun _ => rfl⟩
+  · intro r orig s' hu ih
+    obtain ⟨c1, c2, c3⟩ := chunk_facts hE f hf r orig hu
+    have hpos := appendEscapedRune_pos E f false 0 r
+    refine ⟨?_, ?_, ?_⟩
+    · intro b hb
+      rcases List.mem_append.mp hb with h | h
+      · exact c1 b h
+      · exact ih.1 b h
+    · match he : appendEscapedRune E f false 0 r with
+      | [] => rw [he] at hpos; simp at hpos
+      | c :: cs => rw [he] at c2; simpa using c2
+    · intro hs
+      obtain ⟨e1, e2⟩ := c3 _ hs
+      rw [e1, ih.2.2 e2]
+  · intro b0 s' hx h80 hb0 ih
+    refine ⟨?_, ?_, ?_⟩
+    · intro b hb
+      simp only [appendEscape, hashes, List.replicate, List.cons_append, List.nil_append,
+        List.mem_cons, List.mem_append] at hb
+      have g1 := hexDigit_ge (b0 / 16 % 16)
+      have g2 := hexDigit_ge (b0 % 16)
+      rcases hb with rfl | rfl | rfl | rfl | hb
+      · decide
+      · decide
+      · omega
+      · omega
+      · exact ih.1 b hb
+    · rcases hq with g | g <;> simp [appendEscape, hashes, g]
+    · intro hs
+      simp only [appendEscape, hashes, List.replicate, List.cons_append, List.nil_append] at hs
+      rw [isSimple_backslash] at hs; cases hs
+
+/-! ### `ParseQuotes` and `QuoteInfo.Unquote` on a single-line literal without hashes -/
+
+theorem parseQuotes_single (q : Nat) (hq : q = 0x22 ∨ q = 0x27) (body : Bytes)
+    (hh : body.head? ≠ some q) :
+    parseQuotes (q :: (body ++ [q])) =
+      .ok ({ char := q, numHash := 0, multiline := false, whitespace := [] }, 1) := by
+  match body with
+  | [] => rcases hq with rfl | rfl <;> simp [parseQuotes, hashRun]
+  | b :: bs =>
+    have hb : b ≠ q := by simpa using hh
+    have hb' : (b == q) = false := by simpa using hb
+    rcases hq with rfl | rfl <;> simp [parseQuotes, hashRun, hb, hb']
+
+/-- the plain single-line form (hash count 0): `Unquote(Quote(s)) = s` -/
+theorem roundtrip_single_plain {E : Env} (hE : E.Ok) (slhc : Env → Form → Bytes → Nat) (f : Form)
+    (hf : f.WF) (s : Bytes) (hb : IsBytes s) (hv : f.exact = true ∨ validUTF8 s = true)
+    (hml : f.effMultiline s = false) (hh : hashCountWith slhc E f false s = 0) :
+    unquote (quoteWith slhc E f s) = .ok s := by
+  have hq : f.quote = 0x22 ∨ f.quote = 0x27 := by rcases hf with h | h <;> simp [h.1]
+  obtain ⟨f1, f2, f3⟩ := body_facts hE f hf s hb hv
+  have hlit : quoteWith slhc E f s = f.quote :: (escapeLoop E f false 0 s ++ [f.quote]) := by
+    simp [quoteWith, hml, hh, hashes, appendEscaped]
+  rw [hlit]
+  unfold unquote
+  rw [parseQuotes_single f.quote hq _ f2]
+  simp only [List.drop_succ_cons, List.drop_zero]
+  -- QuoteInfo.unquote
+  have hq10 : f.quote ≠ 10 := by rcases hq with g | g <;> simp [g]
+  have hc : (escapeLoop E f false 0 s ++ [f.quote]).contains 10 = false := by
+    rw [Bool.eq_false_iff]
+    intro hc
+    rw [List.contains_iff_mem] at hc
+    rcases List.mem_append.mp hc with h | h
+    · exact f1 10 h rfl
+    · simp at h; exact hq10 h.symm
+  unfold QuoteInfo.unquote
+  simp only [hc, Bool.and_false, Bool.false_eq_true, if_false]
+  by_cases hs : isSimple f.quote (escapeLoop E f false 0 s) = true
+  · have := f3 hs
+    rw [this] at hs
+    simp [this, hs]
+  · have hs' : isSimple f.quote (escapeLoop E f false 0 s) = false := by simpa using hs
+    simp only [List.dropLast_concat, hs', Bool.and_false, Bool.false_eq_true, if_false, Bool.false_and]
+    have key : ∀ (fuel : Nat) (buf : Bytes), (escapeLoop E f false 0 s).length + 1 ≤ fuel →
+        unquoteLoop { char := f.quote, numHash := 0, multiline := false, whitespace := [] } fuel
+          (escapeLoop E f false 0 s ++ (f.quote :: hashes 0)) buf false false = .ok (buf ++ s) :=
+      loop_single hE f hf { char := f.quote, numHash := 0, multiline := false, whitespace := [] }
+        rfl rfl s.length s (Nat.le_refl _) hb hv
+    have := key ((escapeLoop E f false 0 s ++ [f.quote]).length + 1) []
+      (by simp only [List.length_append, List.length_cons, List.length_nil]; omega)
+    simpa [hashes] using this
 
 end CueVerif.Quote
